@@ -3,12 +3,15 @@
 import json, glob, os, sys
 V = os.path.dirname(os.path.dirname(os.path.abspath(__file__)))
 suf = sys.argv[1].split(",")
+rnd = sys.argv[2] if len(sys.argv) > 2 else ""
 rows = []
 for d in sorted(glob.glob(os.path.join(V, "seeded", "C*_*"))):
     name = os.path.basename(d)
     if name.split("_")[1] not in suf:
         continue
     m = json.load(open(os.path.join(d, "meta.json")))
+    if (rnd == "7") != (m.get("round") == 7):
+        continue
     c = m.get("confirmed_by_coordinator", {})
     what = " ".join(m.get("summary", "").split())
     what = what[:230] + ("…" if len(what) > 230 else "")
